@@ -416,7 +416,12 @@ func TestC20(t *testing.T) {
 	sameDir := c.Avoid("paths.argument_also_ref_target")
 	res := c.Rapid("placement", c.N(400, 8000), 0, func(rt *rapid.T) {
 		shared := rapid.IntRange(0, 2).Draw(rt, "sharedreftext") == 0
-		m := genMulti(rt, c, multiOpts{maxFiles: 4, uniqueDefs: true, blockPkgs: true, sameDir: sameDir, yamlFiles: false, sharedRefText: shared})
+		// a fifth of the cases lets two files state the same id (they then share mapping, package and file)
+		dup := rapid.IntRange(0, 4).Draw(rt, "dupids") == 0
+		if dup {
+			shared = false
+		}
+		m := genMulti(rt, c, multiOpts{maxFiles: 4, uniqueDefs: true, blockPkgs: true, sameDir: sameDir, yamlFiles: false, sharedRefText: shared, allowDupID: dup})
 		if shared {
 			c.Count("shape.shared_ref_text")
 		}
